@@ -102,7 +102,10 @@ TOpDone ==
     /\ Ev.m \in Models
     /\ OpDone(Ev.m)
     /\ ms[Ev.m].n = Ev.n
-    /\ ms[Ev.m].opkind = "query" => Replies(Ev.m) = Ev.replies
+    \* Ev.take: number of replies the model read from the reply iterator before dropping it (-1: all of them)
+    /\ ms[Ev.m].opkind = "query" =>
+          IF Ev.take < 0 THEN Replies(Ev.m) = Ev.replies
+          ELSE LET r == Replies(Ev.m) IN SubSeq(r, 1, IF Ev.take < Len(r) THEN Ev.take ELSE Len(r)) = Ev.replies
     /\ Keep
 
 THE ==
